@@ -82,8 +82,9 @@ esac
 prop="$mode"
 tier="$arg"
 build "$scratch"
-mkdir -p "$VERIF/evidence" "$VERIF/replays" "$scratch/work"
+EVD="${VERIF_EVIDENCE_DIR:-$VERIF/evidence}"; RPD="${VERIF_REPLAY_DIR:-$VERIF/replays}"
+mkdir -p "$EVD" "$RPD" "$scratch/work"
 "$scratch/verifsim" run -prop "$prop" -tier "$tier" -seed "$SEED" -workers "$WORKERS" \
-  -evidence "$VERIF/evidence/$prop.json" -replays "$VERIF/replays" -known "$VERIF/known_findings.json" \
+  -evidence "$EVD/$prop.json" -replays "$RPD" -known "$VERIF/known_findings.json" \
   -scratch "$scratch/work" -plain "$scratch/verifsim-plain" -instr-report "$scratch/instrument.json" ${VERIF_COUNT:+-count "$VERIF_COUNT"}
 exit $?
